@@ -67,20 +67,20 @@ def setFirst (j : Joiner) (n : Nat) : Flat → Flat
   | (_, m, c) :: r => (j, n + m, c) :: r
 
 mutual
-def expandCore : Core → Core
-  | .atom i p t => .atom i p t
-  | .paren f => .paren (expandFlat f)
-  | .splice t f => .splice t (expandFlat f)
+/-- one item as the SQL parser sees it: raw text written without parentheses is inlined (its first item takes
+    the joiner and the pending NOTs of the place it was written to) -/
+def expandItem (j : Joiner) (n : Nat) : Core → List (Joiner × Nat × Core)
+  | .atom i p t => [(j, n, .atom i p t)]
+  | .paren f => [(j, n, .paren (expandFlat f))]
+  | .splice t f =>
+    -- (a raw text without any item — never produced by a real string — stays a single opaque item)
+    match expandFlat f with
+    | [] => [(j, n, .splice t [])]
+    | x :: xs => setFirst j n (x :: xs)
 /-- what the SQL parser sees: unparenthesised raw text is inlined into the surrounding list -/
 def expandFlat : List (Joiner × Nat × Core) → List (Joiner × Nat × Core)
   | [] => []
-  | (j, n, .splice t f) :: r =>
-    -- (a raw text without any item — never produced by a real string — stays a single opaque item)
-    (match expandFlat f with
-      | [] => [(j, n, .splice t [])]
-      | x :: xs => setFirst j n (x :: xs)) ++ expandFlat r
-  | (j, n, .atom i p t) :: r => (j, n, .atom i p t) :: expandFlat r
-  | (j, n, .paren f) :: r => (j, n, .paren (expandFlat f)) :: expandFlat r
+  | (j, n, c) :: r => expandItem j n c ++ expandFlat r
 end
 
 /-- the meaning SQL gives to what gorm wrote -/
